@@ -395,6 +395,72 @@ class PathlibModel:
         return Stub("pathlib." + k)
 
 
+class NativeModel:
+    """Base of rule-supplied stand-ins for library objects: attributes and methods are the Python object's own."""
+
+
+class OperatorModel:
+    """`operator`: the function forms of the operators, evaluated by the interpreter's own operator semantics."""
+
+    def __init__(self, it):
+        B = lambda op: (lambda a, b: it.binop(op, a, b, None))
+        for nm, op in (("add", ast.Add()), ("sub", ast.Sub()), ("mul", ast.Mult()), ("truediv", ast.Div()), ("pow", ast.Pow()), ("matmul", ast.MatMult()),
+                       ("mod", ast.Mod()), ("floordiv", ast.FloorDiv())):
+            setattr(self, nm, B(op))
+            setattr(self, "i" + nm, B(op))
+            setattr(self, "__%s__" % nm, B(op))
+        self.neg = lambda a: it.binop(ast.Sub(), 0, a, None)
+        self.pos = lambda a: a
+        self.getitem = lambda o, k: it.getitem(o, k, None)
+        self.itemgetter = lambda *ks: (lambda o: it.getitem(o, ks[0], None) if len(ks) == 1 else tuple(it.getitem(o, k, None) for k in ks))
+        self.attrgetter = lambda k: (lambda o: it.getattr(o, k, None))
+        for nm, op in (("lt", ast.Lt()), ("le", ast.LtE()), ("gt", ast.Gt()), ("ge", ast.GtE()), ("eq", ast.Eq()), ("ne", ast.NotEq())):
+            setattr(self, nm, (lambda op: (lambda a, b: it.compare(op, a, b, None)))(op))
+
+    def __getattr__(self, k):
+        raise Unsupported("operator.%s is not modelled" % k)
+
+
+class FunctoolsModel:
+    def __init__(self, it):
+        self._it = it
+
+    def reduce(self, f, iterable, *init):
+        items = list(self._it.iterate(iterable, None))
+        if init:
+            acc = init[0]
+        elif items:
+            acc, items = items[0], items[1:]
+        else:
+            raise InterpRaise("TypeError", "reduce() of empty iterable with no initial value")
+        for x in items:
+            acc = self._it.call(f, [acc, x], {}, None)
+        return acc
+
+    def partial(self, f, *a, **k):
+        return lambda *b, **kk: self._it.call(f, list(a) + list(b), dict(k, **kk), None)
+
+    def __getattr__(self, k):
+        if k in ("lru_cache", "cache", "wraps"):
+            return Stub("functools." + k)
+        raise Unsupported("functools.%s is not modelled" % k)
+
+
+class ItertoolsModel:
+    def __init__(self, it):
+        self._it = it
+
+    def product(self, *iterables, repeat=1):
+        import itertools
+        return list(itertools.product(*[list(self._it.iterate(x, None)) for x in iterables], repeat=repeat))
+
+    def chain(self, *iterables):
+        return [y for x in iterables for y in self._it.iterate(x, None)]
+
+    def __getattr__(self, k):
+        raise Unsupported("itertools.%s is not modelled" % k)
+
+
 class MathModel:
     pi = cm.PI
 
@@ -474,6 +540,8 @@ class Interp:
                     env[nm] = NP if a.name == "numpy" else Stub(a.name)
                 elif top == "math":
                     env[nm] = MathModel()
+                elif a.name in ("operator", "functools", "itertools"):
+                    env[nm] = {"operator": OperatorModel, "functools": FunctoolsModel, "itertools": ItertoolsModel}[a.name](self)
                 elif a.name == "pathlib":
                     env[nm] = PathlibModel()
                 elif a.name == "os":
@@ -531,6 +599,8 @@ class Interp:
                 env[nm] = getattr(NP, a.name)
             elif mod == "fractions":
                 env[nm] = Fraction if a.name == "Fraction" else Stub(a.name)
+            elif mod in ("operator", "functools", "itertools"):
+                env[nm] = getattr({"operator": OperatorModel, "functools": FunctoolsModel, "itertools": ItertoolsModel}[mod](self), a.name)
             elif mod == "pathlib":
                 env[nm] = getattr(PathlibModel(), a.name)
             elif mod == "os":
@@ -1050,9 +1120,17 @@ class Interp:
             if m is not None:
                 return self.call(Bound(m, o), [k], {}, n)
             raise InterpRaise("TypeError", "'%s' object is not subscriptable" % o.cls.name, n)
+        if isinstance(o, NativeModel) and hasattr(o, "__getitem__"):
+            return o[k]
         raise Unsupported("subscript on %s" % type(o).__name__, n)
 
     def compare(self, op, l, r, n):
+        if isinstance(op, (ast.Eq, ast.NotEq, ast.Is, ast.IsNot)):
+            # `type(x) == int`: the builtin names int / float / str are model functions here
+            unmodel = {id(_int): int, id(_float): float, id(_str): str}
+            l, r = unmodel.get(id(l), l), unmodel.get(id(r), r)
+            if (l is float and r is Fraction) or (l is Fraction and r is float):
+                l = r = float
         if isinstance(l, Instance) or isinstance(r, Instance):
             if isinstance(op, (ast.Is, ast.IsNot)):
                 return (l is r) == isinstance(op, ast.Is)
@@ -1226,7 +1304,7 @@ class Interp:
                 nm = a.symname if a.key[1] is None else "%s_%d" % (a.symname, a.key[1])
                 return lambda: nm
             raise Unsupported("SX attribute .%s is not modelled" % k, n)
-        if isinstance(o, (cm.FunctionVal, cm.CodeGeneratorVal, cm.SeriesDict, cm.MatClass, NPModel, MathModel, PathVal, PathlibModel, OsModel, OsPathModel)) or o is CA or o is cm.SparsityNS:
+        if isinstance(o, (cm.FunctionVal, cm.CodeGeneratorVal, cm.SeriesDict, cm.MatClass, NPModel, MathModel, PathVal, PathlibModel, OsModel, OsPathModel, NativeModel, OperatorModel, FunctoolsModel, ItertoolsModel)) or o is CA or o is cm.SparsityNS:
             try:
                 return getattr(o, k)
             except AttributeError:
@@ -1609,6 +1687,10 @@ def _len(x):
 
 
 def _str(x=""):
+    if isinstance(x, type) and issubclass(x, NativeModel):
+        return x.__name__          # sympy prints a function class by its name: str(type(sin(x))) == "sin"
+    if isinstance(x, NativeModel):
+        return str(x)
     return x if isinstance(x, str) else x.s if isinstance(x, PathVal) else "<str>"
 
 
@@ -1642,6 +1724,8 @@ def _float(x=0):
     if isinstance(x, int):
         return Fraction(x)
     if isinstance(x, str):
+        return cm.to_frac(float(x))
+    if isinstance(x, NativeModel) and hasattr(x, "__float__"):
         return cm.to_frac(float(x))
     raise Unsupported("float(%s)" % tname(x))
 
